@@ -231,8 +231,48 @@ fn matches_expect(x: &Expect, got: &Option<ErrKind>) -> bool {
     }
 }
 
+pub const SIG_SECONDARY: &str = "C11/secondary-send-error-masks-first-failure";
+
+/// signatures listed as `known:` in known_findings.txt
+fn known_sigs() -> &'static Vec<String> {
+    static K: std::sync::OnceLock<Vec<String>> = std::sync::OnceLock::new();
+    K.get_or_init(|| {
+        let mut v = Vec::new();
+        if let Ok(s) = std::fs::read_to_string(format!("{}/known_findings.txt", verif_dir())) {
+            for l in s.lines() {
+                if let Some(rest) = l.trim().strip_prefix("known:") {
+                    for w in rest.split_whitespace() {
+                        if let Some(x) = w.strip_prefix("sig=") {
+                            v.push(x.to_string());
+                        }
+                    }
+                }
+            }
+        }
+        v
+    })
+}
+
+/// The one shape recorded as a known finding: on the multi-threaded executor the
+/// first failure (panic or send to a dropped mailbox in model X) closes X's
+/// mailbox while X's task is unwound; another model Y that is sending to X on
+/// another worker then fails with a send error, and its report can be registered
+/// before X's: the call returns NoRecipient(Y) instead of X's error.
+fn is_secondary_send_error(c: &FCase, x: &Expect, got: &Option<ErrKind>) -> bool {
+    if !matches!(c.base.exec, Exec::Mt { .. }) {
+        return false;
+    }
+    let first = match x {
+        Expect::Panic { model, .. } => model.clone(),
+        Expect::NoRecipient(Some(m)) => m.clone(),
+        _ => return false,
+    };
+    matches!(got, Some(ErrKind::NoRecipient(Some(y))) if *y != first)
+}
+
 #[derive(Default)]
 pub struct FInfo {
+    pub known_hit: bool,
     pub fault_hit: Option<&'static str>,
     pub fault_in_init: bool,
     pub fault_in_submodel: bool,
@@ -425,6 +465,18 @@ pub fn eval_fcase(c: &FCase, prop: &str) -> Result<FInfo, Verdict> {
         shared.release_gates();
         drop(built.world);
         uninstall_picker();
+        if is_secondary_send_error(c, &x0, &init_err) {
+            if known_sigs().iter().any(|k| k == SIG_SECONDARY) {
+                info.known_hit = true;
+                return Ok(info);
+            }
+            return Err(Verdict::Fail {
+                signature: SIG_SECONDARY.to_string(),
+                clause: "init-error-classification".to_string(),
+                detail: format!("SimInit::init returned {:?}, expected {:?} (fault {:?})", init_err, x0, c.fault),
+                props: BOTH_C11,
+            });
+        }
         return Err(ffail(
             BOTH_C11,
             "init-error-classification",
@@ -586,6 +638,18 @@ pub fn eval_fcase(c: &FCase, prop: &str) -> Result<FInfo, Verdict> {
                 finish_drop!(w);
             }
             drop_world(w, &shared);
+            if is_secondary_send_error(c, &x, &err) {
+                if known_sigs().iter().any(|k| k == SIG_SECONDARY) {
+                    info.known_hit = true;
+                    return Ok(info);
+                }
+                return Err(Verdict::Fail {
+                    signature: SIG_SECONDARY.to_string(),
+                    clause: "error-classification".to_string(),
+                    detail: format!("command #{} {:?} returned {:?}, expected {:?} (fault {:?})", i - 1, cmd, err, x, c.fault),
+                    props: BOTH_C11,
+                });
+            }
             return Err(ffail(
                 BOTH_C11,
                 "error-classification",
@@ -797,6 +861,9 @@ impl SubCheck for FSub {
                 }
                 if i.ignored_timeout {
                     cl.push("unexpected-timeout-ignored");
+                }
+                if i.known_hit {
+                    cl.push("KNOWN C11/secondary-send-error-masks-first-failure");
                 }
                 let nt = match self.prop {
                     "C11" => (i.fault_hit.is_some() && i.fault_hit != Some("init") && i.post_calls >= 2) || i.usable_after_nonfatal > 0,
